@@ -270,3 +270,20 @@ contract(
     ensures={"removes-the-override": "key not in %s" % L_, "only-that-key": SAME_EXCEPT1, "shared-layer-untouched": "%s == old(%s)" % (G_, G_)},
     from_property="the clauses Env.swap assumes of _del_item, proved for a variable that is still known",
 )
+
+
+# ---- worker threads inherit the spawning thread's swapped view: the two primitives that carry it -----------------------------------------
+contract(
+    E + "InternalEnvironDict.get_local_overrides", "C11", params=dict(self=IED), returns=LAYER,
+    ensures={"hands-out-a-COPY-of-the-thread's-overrides (a later change of either side does not show in the other)": "forall_str(lambda k: (k in result) == (k in self._local) and implies(k in result, result[k] == self._local[k])) and result is not self._local",
+             "nothing-changes": "self._local == old(self._local) and self._global == old(self._global)"},
+    from_property="only in their own thread (the spawner's overrides are copied for the worker, not shared with it)",
+)
+contract(
+    E + "InternalEnvironDict.set_local_overrides", "C11", params=dict(self=IED, new_local=LAYER), modifies=["self._local"],
+    locals={"local": LAYER}, config={"aliases": {}},
+    ensures={"the-thread's-overrides-become-exactly-the-given-ones":
+             "forall_str(lambda k: (k in self._local) == (k in new_local) and implies(k in new_local, self._local[k] == new_local[k]))",
+             "the-shared-layer-and-the-given-mapping-are-untouched": "self._global == old(self._global) and new_local == old(new_local)"},
+    from_property="worker threads inherit the spawning thread's swapped view (exactly it: nothing of the worker's earlier overrides survives, nothing reaches the shared layer)",
+)
